@@ -172,7 +172,7 @@ Proof.
       assert (Hnc : hcop r (hbi t) = false) by (apply (iv_adm hidx s I i t jr r Hi Hjr); [rewrite Hp; reflexivity|exact Hsn|exact Hpr]).
       apply filter_ext. intros k. cbn [stores]. unfold upd_store. rewrite Hrs, Hsn, Nat.eqb_refl. unfold upd_fun.
       match goal with |- context [bidx_of hidx ?s' _ _] =>
-        lazymatch s' with mkHcs _ _ _ _ _ _ _ _ _ _ => rewrite (bidx_of_ext2 s' s) by reflexivity end end.
+        lazymatch s' with mkHcs _ _ _ _ _ _ _ _ _ _ _ => rewrite (bidx_of_ext2 s' s) by reflexivity end end.
       destruct (Z.eqb_spec k (hkey t)) as [->|]; [|reflexivity].
       rewrite Hb, Hsn in Hnc. rewrite !Hnc. reflexivity.
     + intros g k. unfold upd_store. destruct (Nat.eqb g (hsnap t)) eqn:Eg; [|apply (z_keys s Z)].
